@@ -20,7 +20,12 @@ package core
 // IndexStartOptimize: every index it remembers is a valid position of the pipeline,
 // so none of its slice and index expressions can go out of range.
 //@ func IndexStartOptimize
-//@   property C06
+//@   property C06 C02
+//@   callsite NewListFromStrings requires nodup: forall p, q :: 0 <= p && p < q && q < len(arg0) ==> arg0[p] != arg0[q]
+//@   loop 3 invariant head: soff(optimized) == 0 && sref(optimized) >= 0 && sref(optimized) < alloc && (labelOpt ==> len(optimized) >= 1 && optimized[0] != nil && optimized[0] < alloc &&
+//@       dyn(optimized[0].Statement, "*gripql.GraphStatement_LookupVertsIndex") &&
+//@       (forall p, q :: 0 <= p && p < q && q < len(ptr(optimized[0].Statement, "*gripql.GraphStatement_LookupVertsIndex").Labels) ==>
+//@           ptr(optimized[0].Statement, "*gripql.GraphStatement_LookupVertsIndex").Labels[p] != ptr(optimized[0].Statement, "*gripql.GraphStatement_LookupVertsIndex").Labels[q]))
 //@   option prelude=json
 //@   option load=gripql,jsonpath,util/protoutil
 //@   nopanic
@@ -209,11 +214,15 @@ package core
 // hasId(ids): a non-signal traveler is forwarded iff it has a current element whose id
 // is one of ids.
 //@ func dedupStringSlice
-//@   property C01 C06
+//@   property C01 C06 C02
 //@   nopanic
 //@   modifies SH.Str MapD.Str MapN alloc
 //@   loop 1 invariant j: 0 <= j && j <= rangeindex + 1 && rangeindex < len(s)
+//@   loop 1 invariant distinct: forall p, q :: 0 <= p && p < q && q < j ==> s[p] != s[q]
+//@   loop 1 invariant seenall: seen != nil && (forall p :: 0 <= p && p < j ==> has(seen, s[p]))
+//@   loop 1 invariant seenonly: forall x:Str :: has(seen, x) ==> (exists p :: 0 <= p && p < j && s[p] == x)
 //@   ensures shape: len(result) <= len(s) && len(result) >= 0 && sref(result) == sref(s) && soff(result) == soff(s)
+//@   ensures nodup: forall p, q :: 0 <= p && p < q && q < len(result) ==> result[p] != result[q]
 
 //@ func (*HasID).Process$1
 //@   property C01 C06
